@@ -13,7 +13,9 @@ CONSTANTS Engines, Paths,
           Shape,   \* "single": at most one named header; "all": every name at once, one common config;
                    \* "triple": one credential x one hop-by-hop x one forwarded header, independent configs;
                    \* "pairF": two forwarded headers, independent configs
-          Pads     \* numbers of padding headers
+          Pads,    \* numbers of padding headers
+          Stride   \* thinning: keep the scenarios whose code is 0 modulo Stride (1 = keep all); the code mixes
+                   \* every field, so each header configuration stays represented on some of the request paths
 VARIABLE scn
 
 Cfgs == [m : {1}, v : Variants, w : {0}, e : {0, 1}] \cup [m : {2}, v : Variants, w : {0, 1}, e : {0, 1, 2}]
@@ -35,8 +37,16 @@ HsSet == CASE Shape = "single" -> Singles
            [] Shape = "triple" -> Triples
            [] Shape = "pairF"  -> PairsF
 
+Idx(seq, x) == CHOOSE i \in 1..Len(seq) : seq[i] = x
+EngOrder  == SetToSeq(Engines)
+PathOrder == SetToSeq(Paths)
+HCode(h)  == (((Idx(Order, h.name) * 3 + h.m) * 4 + h.v) * 2 + h.w) * 3 + h.e
+RECURSIVE Mix(_, _)
+Mix(acc, hs) == IF hs = <<>> THEN acc ELSE Mix((acc * 31 + HCode(Head(hs))) % 65521, Tail(hs))
+Code(en, p, hs, pad) == ((((Mix(7, hs) * 31 + Idx(EngOrder, en)) % 65521) * 31 + Idx(PathOrder, p)) % 65521) * 31 + pad
 Init == \E en \in Engines : \E p \in Paths : \E hs \in HsSet : \E pad \in Pads :
-           scn = [engine |-> en, path |-> p, hs |-> hs, pad |-> pad]
+           /\ Code(en, p, hs, pad) % Stride = 0
+           /\ scn = [engine |-> en, path |-> p, hs |-> hs, pad |-> pad]
 Next == FALSE /\ UNCHANGED scn
 Spec == Init /\ [][Next]_scn
 Export == PrintT(<<"SCN", ToJson(scn)>>)
